@@ -358,7 +358,8 @@ class ModelCacheMixin:
             def signed_key(v):
                 return v if v < 2 ** (len(e) - 1) else v - 2 ** len(e)
 
-            return min(cached, key=signed_key if signed else lambda v: v)
+            # like the backend, a signed query answers with the signed reading of the value
+            return min(map(signed_key, cached)) if signed else min(cached)
 
         m = super().min(e, extra_constraints=extra_constraints, signed=signed, exact=exact)
         if len(extra_constraints) == 0:
@@ -377,7 +378,7 @@ class ModelCacheMixin:
             def signed_key(v):
                 return v if v < 2 ** (len(e) - 1) else v - 2 ** len(e)
 
-            return max(cached, key=signed_key if signed else lambda v: v)
+            return max(map(signed_key, cached)) if signed else max(cached)
 
         m = super().max(e, extra_constraints=extra_constraints, signed=signed, exact=exact)
         if len(extra_constraints) == 0:
